@@ -110,7 +110,7 @@ def generate():
 
     # front ends (round 8): how formatToJson(flag) and JsonFormatter::instance() obtain the formatter object
     sp = strip_comments(rd('simplepipeline.cpp'))
-    fj = re.sub(r'\s+', ' ', fn_body(sp, 'SimplePipeline::formatToJson'))
+    fj = inline_single_use_consts(re.sub(r'\s+', ' ', fn_body(sp, 'SimplePipeline::formatToJson')))   # `const auto f = X; append(f);` reads as append(X)
     need(re.search(r'SimplePipeline &SimplePipeline::formatToJson\(bool compact\)', sp), 'SimplePipeline::formatToJson(bool compact)')
     if re.fullmatch(r'append\(JsonFormatterPtr::create\(compact\)\); return \*this;', fj.strip()):
         fluent = 'FFresh'
